@@ -112,8 +112,29 @@ def rule_single_encoder(ctx, rep, rid: str) -> None:
                     w = True
             if w:
                 writers.append((m, n.lineno))
-    names = sorted({m.name for m, _ in writers})
-    allowed = {"_emit", "_emit_jump", "_patch_jump"}
+    # the emit helpers: methods that write an opcode they are GIVEN (a parameter appended to the buffer), and the
+    # patch helpers that overwrite operand bytes at a position they are given; their operand writes are the
+    # obligations of the range-check rule
+    allowed = set()
+    for m in comp.methods.values():
+        ps = set(m.params()) - {"self"}
+        for n in m.own_nodes():
+            if isinstance(n, ast.Call) and norm(n.func) == "self.bytecode.append" and n.args and isinstance(n.args[0], ast.Name) and n.args[0].id in ps and n.args[0].id in ("opcode", "op"):
+                allowed.add(m.name)
+            if isinstance(n, ast.Assign) and any(isinstance(tg, ast.Subscript) and norm(tg.value) == "self.bytecode" and any(isinstance(x, ast.Name) and x.id in ps for x in ast.walk(tg.slice)) for tg in n.targets):
+                allowed.add(m.name)
+    changed = True
+    while changed:
+        changed = False
+        for m in comp.methods.values():
+            if m.name in allowed:
+                continue
+            ps = set(m.params()) & {"opcode", "op"}
+            if ps and any(isinstance(n, ast.Call) and isinstance(n.func, ast.Attribute) and norm(n.func.value) == "self" and n.func.attr in allowed and n.args and isinstance(n.args[0], ast.Name) and n.args[0].id in ps for n in m.own_nodes()):
+                allowed.add(m.name)  # hands the opcode it was given to an emit helper and writes its operand itself
+                changed = True
+    if not allowed:
+        raise AnalysisError("no emit helper found in the compiler (anchor vanished)")
     for m, line in writers:
         key = f"{m.qual}:writes-bytecode"
         if m.name in allowed:
@@ -198,6 +219,22 @@ def rule_decoder_agreement(ctx, rep, rid: str) -> None:
     two_byte_helpers = {m.name for m in comp.methods.values() if any(isinstance(n, ast.BinOp) and isinstance(n.op, ast.RShift) and isinstance(n.right, ast.Constant) and n.right.value == 8 for n in m.own_nodes()) or sum(1 for n in m.own_nodes() if isinstance(n, ast.Call) and norm(n.func) == "self.bytecode.append") >= 3}
     if "_emit_jump" in two_byte_helpers:
         enc16 = enc16 | jumps
+    # helpers ALL of whose operand writes are the (low, high) pair: every opcode handed to one is 16-bit
+    wide_only = set()
+    for m in comp.methods.values():
+        if m.name not in two_byte_helpers:
+            continue
+        ps = set(m.params()) - {"self", "opcode", "op"}
+        plain = [n for n in m.own_nodes() if isinstance(n, ast.Call) and norm(n.func) == "self.bytecode.append" and n.args and isinstance(n.args[0], ast.Name) and n.args[0].id in ps]
+        if not plain:
+            wide_only.add(m.name)
+    for m in comp.methods.values():
+        for n in m.own_nodes():
+            if isinstance(n, ast.Call) and isinstance(n.func, ast.Attribute) and norm(n.func.value) == "self" and n.func.attr in wide_only and n.func.attr not in ("_emit", "_emit_jump") and n.args:
+                mem = opcode_member(n.args[0])
+                if mem:
+                    enc16.add(mem)
+                    with_arg.add(mem)
     if not enc16:
         raise AnalysisError("the compiler's 16-bit operand set was not found (neither a table consulted by _emit nor a two-byte emit helper)")
     enc8 = with_arg - enc16
